@@ -76,8 +76,9 @@ fn absolutise_includes(line: &str, orig_dir: &Path) -> String {
 /// `crate::x` -> `crate::gens::<gen>::x`, `$crate::x` likewise — in code only: string literals
 /// (the generators print Rust source that may itself say `crate::…`), character literals and
 /// comments are copied untouched. Works on the whole file (strings span lines).
-fn rehome_crate_paths(src: &str, gen: &str) -> String {
-    let target = format!("crate::gens::{}::", gen);
+fn rehome_crate_paths(src: &str, gen: &str, shadow: &str) -> String {
+    // `gen` names a generator module, or — with a leading "crate::" — the full new home
+    let target = if gen.starts_with("crate::") { gen.to_string() } else { format!("crate::gens::{}::", gen) };
     let b = src.as_bytes();
     let mut out = String::with_capacity(src.len() + 64);
     let mut i = 0usize;
@@ -171,6 +172,36 @@ fn rehome_crate_paths(src: &str, gen: &str) -> String {
                 continue;
             }
         }
+        // (round 11) an *inline* module (`mod journal { use std::fs; … }`): a `use std::…` in there
+        // resolves through the extern prelude, not through the shadow `std` of the enclosing
+        // module — control `i5_r3` kept its journal in such a module and wrote it to the real
+        // disk, shared by all worker threads. Every inline module gets the shadow of its own,
+        // right after its opening brace (same line: line numbers stay).
+        if src[i..].starts_with("mod") && !(i > 0 && (b[i - 1].is_ascii_alphanumeric() || b[i - 1] == b'_')) {
+            let mut j = i + 3;
+            let ws1 = j;
+            while j < b.len() && (b[j] == b' ' || b[j] == b'\t' || b[j] == b'\n' || b[j] == b'\r') {
+                j += 1;
+            }
+            if j > ws1 {
+                let id0 = j;
+                while j < b.len() && (b[j].is_ascii_alphanumeric() || b[j] == b'_') {
+                    j += 1;
+                }
+                if j > id0 {
+                    while j < b.len() && (b[j] == b' ' || b[j] == b'\t' || b[j] == b'\n' || b[j] == b'\r') {
+                        j += 1;
+                    }
+                    if j < b.len() && b[j] == b'{' {
+                        out.push_str(&src[i..=j]);
+                        out.push(' ');
+                        out.push_str(shadow);
+                        i = j + 1;
+                        continue;
+                    }
+                }
+            }
+        }
         let ch_len = src[i..].chars().next().map(|c| c.len_utf8()).unwrap_or(1);
         out.push_str(&src[i..i + ch_len]);
         i += ch_len;
@@ -179,6 +210,7 @@ fn rehome_crate_paths(src: &str, gen: &str) -> String {
 }
 
 fn neutralise(src: &str, gen: &str, orig_dir: &Path) -> String {
+    let shadow = if gen.starts_with("crate::") { LIB_SHADOW } else { SHADOW };
     let mut out = String::with_capacity(src.len());
     let mut in_block_doc = false;
     for line in src.split_inclusive('\n') {
@@ -217,7 +249,7 @@ fn neutralise(src: &str, gen: &str, orig_dir: &Path) -> String {
             out.push_str(line);
         }
     }
-    rehome_crate_paths(&out, gen)
+    rehome_crate_paths(&out, gen, shadow)
 }
 
 const SHADOW: &str = "#[allow(unused_imports)] mod std { pub use crate::seams::shadow_std::*; pub use crate::seams::shadow_std::env; } #[allow(unused_imports, dead_code)] mod walkdir { pub use crate::seams::shim_walkdir::*; } #[allow(unused_imports, dead_code)] mod rayon { pub use crate::seams::shim_rayon::*; } #[allow(unused_imports)] use crate::seams::{LocalKeyCellExt as _, LocalKeyRefCellExt as _}; ";
@@ -249,8 +281,51 @@ fn copy_helpers(from: &Path, to: &Path, top: bool, gen: &str) {
     }
 }
 
+/// (round 11) A second compilation of the *library* (`unic-langid-impl/src`, without `bin/`) for
+/// S7, the concurrent-callers check: the same source files, each with a shadow `std`/`core` in
+/// which `sync` (locks, atomics, `Once`, `OnceLock`, `LazyLock`), `thread` and `thread_local!` are
+/// the thread engine's, so that every synchronisation operation a lookup performs is a scheduling
+/// point of the simulator. Nothing else differs from the real crate (which the rest of the
+/// simulator keeps using as a path dependency).
+const LIB: &str = "/repo/unic-langid-impl/src";
+const LIB_HOME: &str = "crate::libsim::root::";
+const LIB_SHADOW: &str = "#[allow(unused_imports)] mod std { pub use crate::libsim::lib_std::*; } #[allow(unused_imports)] mod core { pub use crate::libsim::lib_core::*; } #[allow(unused_imports, dead_code)] mod once_cell { pub use crate::libsim::lib_once_cell::*; } ";
+
+fn copy_lib(from: &Path, to: &Path, top: bool) {
+    let Ok(rd) = std::fs::read_dir(from) else { return };
+    for e in rd.flatten() {
+        let p = e.path();
+        let name = e.file_name();
+        let n = name.to_string_lossy().to_string();
+        if p.is_dir() {
+            if top && n == "bin" {
+                continue;
+            }
+            let sub = to.join(&name);
+            let _ = std::fs::create_dir_all(&sub);
+            copy_lib(&p, &sub, false);
+        } else if n.ends_with(".rs") {
+            if let Ok(text) = std::fs::read_to_string(&p) {
+                let body = neutralise(&text, LIB_HOME, from);
+                // the crate root gets its shadow from the module it is included in
+                let text = if top && n == "lib.rs" { body } else { format!("{}{}", LIB_SHADOW, body) };
+                let _ = std::fs::write(to.join(&name), text);
+            }
+        } else {
+            let _ = std::fs::copy(&p, to.join(&name));
+        }
+    }
+}
+
 fn main() {
     let out_dir = std::env::var("OUT_DIR").unwrap();
+    {
+        let dir = Path::new(&out_dir).join("libsim");
+        let _ = std::fs::remove_dir_all(&dir);
+        std::fs::create_dir_all(&dir).unwrap();
+        println!("cargo:rerun-if-changed={}", LIB);
+        copy_lib(Path::new(LIB), &dir, true);
+    }
     let bin = Path::new(BIN);
     // the whole directory: helper modules may come and go
     println!("cargo:rerun-if-changed={}", bin.display());
